@@ -1,6 +1,6 @@
 """C05: wrong, missing or surplus parameters raise the right error, never mis-delivered."""
 import json
-import lib, parser_common as pc
+import lib, parser_common as pc, suite_traces
 
 import re
 INTK = ('i32', 'u32', 'i64', 'u64')
@@ -31,7 +31,8 @@ def run(pid, tier):
                        'texts (decimal, negative, real, with known / unknown suffix, #H, ON/OFF, choice names, unknown mnemonic, both string kinds, block, expression, exponent form) '
                        'with 3 white-space variants around commas, plus lists ending in a malformed fragment; (S,L) = (1,2)+(2,1) quick, (2,2)+(1,3) thorough; enumerated by TLC, '
                        'executed, validated by TLC; non-trivial = list length differs from the signature, white space before a comma, or a non-plain-decimal item')
-    rep.assumptions += ['values of numeric items are compared only for plain decimal integers (C04 covers decoding)',
+    rep.assumptions += ['hook traces of the four unmodified CUnit programs (ASan+UBSan build) are validated by TVSuite; direct writes of test code to the status byte suspend the C11 clause until the next message',
+                        'values of numeric items are compared only for plain decimal integers (C04 covers decoding)',
                         'a Boolean reader given a number with suffix may report -104 or -138 (both fit the statement)',
                         'for text that is not well-formed program data only "a command error is queued and the input call fails" is required']
     plans = [dict(MaxSig=1, MaxItems=2, WsVariants='{0, 2}'), dict(MaxSig=2, MaxItems=1, WsVariants='{0}'),
@@ -50,6 +51,7 @@ def run(pid, tier):
         scen.append(s)
     obs = pc.execute(rep, scen, 'default', 'C05')
     pc.validate(rep, 'C05', scen, obs, 'C05-default', kindfn=kind)
+    suite_traces.validate(rep, 'C05:')      # hook traces of the repository's own test programs
     nt = [s for s in scen if nontrivial(s)]
     rep.cov['distinct_nontrivial'] = len(nt)
     rep.cov['exhaustive'] = True
